@@ -96,6 +96,20 @@ class Aff(AbstractValue):
         if d.is_const():
             from .interp import _CMPOPS
             return _CMPOPS[op](d.const, 0)
+        if Aff.lower_bounds and all(k in Aff.lower_bounds for k in d.terms):
+            # every symbol has a known lower bound: the sign of d may be determined
+            from .interp import _CMPOPS
+            bound = d.const + sum(c * Aff.lower_bounds[k] for k, c in d.terms.items())
+            if all(c > 0 for c in d.terms.values()):         # d >= bound
+                if bound > 0:
+                    return _CMPOPS[op](1, 0)
+                if bound == 0 and op in (ast.GtE, ast.Lt):
+                    return op is ast.GtE
+            elif all(c < 0 for c in d.terms.values()):       # d <= bound
+                if bound < 0:
+                    return _CMPOPS[op](-1, 0)
+                if bound == 0 and op in (ast.LtE, ast.Gt):
+                    return op is ast.LtE
         # canonical form over the integers:  e == 0  or  e >= 0  with a positive leading coefficient,
         # so that  N > 4,  N >= 5,  not N < 5,  N - 1 >= 4,  5 <= N  all decide the same condition
         if op in (ast.Eq, ast.NotEq):
@@ -116,6 +130,7 @@ class Aff(AbstractValue):
             e, neg = e.scale(-1).add(Aff({}, 1), -1), not neg
         return Cond(('aff', 'ge0', repr(e)), negated=neg)
 
+    lower_bounds = {}   # optional: symbol -> known lower bound (set by a rule for the duration of one analysis)
     on_truth = None     # optional observer: called with the Aff whose truthiness is being tested
 
     def abs_truth(self, interp):
